@@ -79,6 +79,30 @@ pub fn c11(ctx: &mut Ctx) {
                 // removing the only value of a signed header removes its line (the name stays in the list)
                 jobs.push(job(c, Expect::Refuse(None), "c11-signed-delete", must_refuse));
             }
+            // single-byte substitutions that leave the space structure alone: letter case, a blank look-alike
+            // (TAB, 0x85, 0xA0) for a space or next to one, any other byte — each is a different value
+            for t in 0..3 {
+                if v.is_empty() {
+                    break;
+                }
+                let p = rng.below(v.len());
+                let old = v[p];
+                let new = match (t, old) {
+                    (0, b) if b.is_ascii_alphabetic() => b ^ 0x20,
+                    (_, b' ') => *rng.pick(&[0xa0u8, 0x85, 0x09]),
+                    (1, _) => *rng.pick(&[0xa0u8, 0x85, 0x09, 0x7e]),
+                    (_, b) if b.is_ascii_alphabetic() => b ^ 0x20,
+                    (_, b) => b ^ 0x01,
+                };
+                let mut x = v.clone();
+                x[p] = new;
+                if new == old || http::HeaderValue::from_bytes(&x).is_err() || rs::ref_hval(&x) == rs::ref_hval(v) {
+                    continue;
+                }
+                let mut c = s.case.clone();
+                c.headers[i].1 = x;
+                jobs.push(job(c, Expect::Refuse(None), "c11-signed-byte-substituted", must_refuse));
+            }
             if v.contains(&b'a') {
                 // a space inserted where there was none is a different value
                 let mut c = s.case.clone();
@@ -379,6 +403,43 @@ pub fn c12(ctx: &mut Ctx) {
             jobs.push(j);
         }
     }
+    // byte-order marks are body bytes like any other: a UTF-8 BOM belongs to the first parameter name, UTF-16
+    // BOMs are not UTF-8 at all; no declared-charset sniffing
+    for ct in ["application/x-www-form-urlencoded", "application/x-www-form-urlencoded; charset=utf-8"] {
+        for carrier in [Carrier::Header, Carrier::Query] {
+            let mk = |form: Vec<(Vec<u8>, Vec<u8>)>, rng: &mut Rng| {
+                let mut l = simple_logical(carrier.clone(), 1_440_938_160_000_000_000);
+                l.method = "POST".into();
+                l.fold = true;
+                l.content_type = Some(ct.to_string());
+                l.signed.push("content-type".into());
+                l.form = Some(form);
+                let now = now_for(&l, 0);
+                sign_and_spell(&l, rng, &Spelling::plain(), now)
+            };
+            // signed over the name "\u{feff}a": valid with the BOM bytes raw or escaped in the body
+            let with_bom = mk(vec![(b"\xef\xbb\xbfa".to_vec(), b"b".to_vec())], &mut rng);
+            let mut c = with_bom.case.clone();
+            c.body = b"\xef\xbb\xbfa=b".to_vec();
+            let mut j = job(c, Expect::Accept, "c12-bom", "C12: a UTF-8 byte-order mark at the start of a folded body is part of the first parameter name");
+            j.expect_calls = Some(1);
+            jobs.push(j);
+            // signed over plain "a=b": a body that carries three more bytes must not validate
+            let plain = mk(vec![(b"a".to_vec(), b"b".to_vec())], &mut rng);
+            let mut c = plain.case.clone();
+            c.body = b"\xef\xbb\xbfa=b".to_vec();
+            jobs.push(job(c, Expect::Refuse(Some("SignatureDoesNotMatch")), "c12-bom", "C12: body bytes (a byte-order mark) not covered by the signature"));
+            for bom in [&b"\xff\xfe"[..], b"\xfe\xff"] {
+                let mut c = plain.case.clone();
+                let mut b = bom.to_vec();
+                b.extend_from_slice(if bom[0] == 0xff { b"a\0=\0b\0" } else { b"\0a\0=\0b" });
+                c.body = b;
+                let mut j = job(c, Expect::Refuse(Some("InvalidBodyEncoding")), "c12-bom", "C12: a body that is not valid UTF-8 (here UTF-16 with its byte-order mark) under a UTF-8 or unspecified charset is an invalid body encoding");
+                j.expect_calls = Some(0);
+                jobs.push(j);
+            }
+        }
+    }
     // undecodable bodies under folding
     for _ in 0..ctx.n(100, 2000) {
         let mut l = simple_logical(Carrier::Header, 1_440_938_160_000_000_000);
@@ -480,14 +541,17 @@ fn build_defective(carrier: &Carrier, mask: u32, rng: &mut Rng) -> (Case, Option
         }
     }
     if has(8) {
+        // not a timestamp at all, or one the pattern admits but the calendar / clock does not (seconds 60 and
+        // 61, 30 February, hour 24), or a near-miss of the grammar (lower-case designators, a space for 'T')
+        let bad: &str = *rng.pick(&["2015-08-30 12:36", "yesterday", "20150830T123660Z", "20150830T123661Z", "2015-08-30T12:36:60.5Z", "20150230T123600Z", "20150830T240000Z", "2015-08-30t12:36:00z", "2015-08-30 12:36:00Z", "20150830T123600"]);
         if is_hdr {
             for (n, v) in c.headers.iter_mut() {
                 if n.eq_ignore_ascii_case("x-amz-date") {
-                    *v = b"2015-08-30 12:36".to_vec();
+                    *v = bad.as_bytes().to_vec();
                 }
             }
         } else {
-            c.uri = c.uri.replace("X-Amz-Date=20150830T123600Z", "X-Amz-Date=yesterday");
+            c.uri = c.uri.replace("X-Amz-Date=20150830T123600Z", &format!("X-Amz-Date={}", String::from_utf8(rs::encode(bad.as_bytes())).unwrap()));
         }
     }
     if has(6) {
@@ -522,10 +586,10 @@ fn build_defective(carrier: &Carrier, mask: u32, rng: &mut Rng) -> (Case, Option
         }
     }
     if has(1) {
-        c.uri = format!("{}&bad=%zz", c.uri);
+        c.uri = format!("{}&bad={}", c.uri, rng.pick(&["%zz", "%+5", "%-1", "x%4", "%", "%%41"]));
     }
     if has(0) {
-        c.uri = c.uri.replacen("/a/", "/a/%4/", 1);
+        c.uri = c.uri.replacen("/a/", &format!("/a/{}/", rng.pick(&["%4", "%+5", "%zz", "%-1", "%", "%+F"])), 1);
     }
     // expected kind: lowest-numbered applicable defect
     let mut expect: Option<&'static str> = None;
@@ -861,6 +925,82 @@ pub fn c14(ctx: &mut Ctx) {
                     }
                 }
             }
+        }
+    }
+    // request and server clock on different UTC days inside the window: a scope dated with the *server's* day
+    // (or any day but the request's) is out of scope and must not reach the provider; the request's own day must
+    {
+        for k in 0..ctx.n(40, 400) {
+            let day = [16677i64, 17896, 16801, 19782][k % 4];
+            let midnight = (day as i128 + 1) * 86_400_000_000_000;
+            let req_before = k % 2 == 0;
+            let (t, now_ns) = if req_before { (midnight - (1 + (k as i128 % 800)) * 1_000_000_000, midnight + 60_000_000_000) } else { (midnight + (1 + (k as i128 % 800)) * 1_000_000_000, midnight - 60_000_000_000) };
+            let carrier = if k % 4 < 2 { Carrier::Header } else { Carrier::Query };
+            let mut l = simple_logical(carrier, t);
+            let now = (now_ns.div_euclid(1_000_000_000) as i64, 0u32);
+            // correctly scoped (request's day)
+            let good = sign_and_spell(&l, &mut rng, &Spelling::plain(), now);
+            let mut jb = job(good.case, Expect::Accept, "c14-midnight", "C14: a correctly scoped request stamped on the other side of midnight from the server clock (inside the window) was refused");
+            jb.expect_calls = Some(1);
+            jobs.push(jb);
+            // scoped with the server's day, signed consistently over that scope with the request day's key
+            l.scope_date_override = Some(rs::ref_compact(now_ns).1);
+            let bad = sign_and_spell(&l, &mut rng, &Spelling::plain(), now);
+            let mut jb = job(bad.case, Expect::Refuse(Some("SignatureDoesNotMatch")), "c14-defective", "C14: a request whose scope date is the server's day, not the day of its own timestamp, reached the key provider");
+            jb.expect_calls = Some(0);
+            jobs.push(jb);
+        }
+    }
+    // every short add/remove history of the growable requirements container over one header name (declared in
+    // varying letter case): whatever the history, a request that leaves a header unsigned which the resulting
+    // container covers must not reach the provider, and one it does not cover must be accepted
+    {
+        let codes = ['A', 'I', 'P', 'a', 'i', 'p'];
+        let spellings = ["X-Amz-Target", "x-amz-target", "X-AMZ-TARGET"];
+        let mut hist: Vec<Vec<(char, String)>> = Vec::new();
+        // pass 0: the name always in lower case (the form the container's own duplicate scans compare with);
+        // pass 1: letter case varying from operation to operation
+        for pass in 0..2 {
+            let sp = |i: usize| -> String { if pass == 0 { "x-amz-target".to_string() } else { spellings[i % 3].to_string() } };
+            for a in 0..6 {
+                hist.push(vec![(codes[a], sp(a))]);
+                for b in 0..6 {
+                    hist.push(vec![(codes[a], sp(a)), (codes[b], sp(a + b))]);
+                    for c3 in 0..6 {
+                        if pass == 0 || ctx.thorough || (a + 2 * b + 3 * c3) % 3 == 0 {
+                            hist.push(vec![(codes[a], sp(a)), (codes[b], sp(a + b)), (codes[c3], sp(b + c3))]);
+                        }
+                    }
+                }
+            }
+        }
+        for (k, ops) in hist.into_iter().enumerate() {
+            // reference semantics of the container
+            let (mut a2, mut i2, mut p2): (Vec<String>, Vec<String>, Vec<String>) = (vec![], vec![], vec![]);
+            for (code, name) in &ops {
+                let list = match code { 'A' | 'a' => &mut a2, 'I' | 'i' => &mut i2, _ => &mut p2 };
+                if code.is_ascii_uppercase() {
+                    if !list.iter().any(|x| *x == name.to_ascii_lowercase()) {
+                        list.push(name.clone());
+                    }
+                } else {
+                    list.retain(|x| x.to_ascii_lowercase() != name.to_ascii_lowercase());
+                }
+            }
+            let covered = !a2.is_empty() || !i2.is_empty() || !p2.is_empty();
+            let mut l = simple_logical(if k % 2 == 0 { Carrier::Header } else { Carrier::Query }, 1_440_938_160_000_000_000);
+            l.headers.push(("X-Amz-Target".into(), b"Svc.Op".to_vec()));
+            let now = now_for(&l, 0);
+            let s = sign_and_spell(&l, &mut rng, &Spelling::plain(), now);
+            let mut c = s.case;
+            c.always = a2;
+            c.ifreq = i2;
+            c.prefixes = p2;
+            c.vec_reqs = true;
+            c.req_ops = ops;
+            let mut jb = job(c, if covered { Expect::Refuse(Some("SignatureDoesNotMatch")) } else { Expect::Accept }, if covered { "c14-defective" } else { "c14-requirements-met" }, "C14: after this add/remove history of the requirements container, a request leaving the covered header unsigned reached the key provider (or an uncovered one was refused)");
+            jb.expect_calls = Some(if covered { 0 } else { 1 });
+            jobs.push(jb);
         }
     }
     // every kind of pre-provider defect (and pairs of them), both carriers: the provider must stay untouched
@@ -1318,6 +1458,27 @@ pub fn c08(ctx: &mut Ctx) {
             ctx.rep.count("evaluations.FROMSTR");
             if out.starts_with("PANIC") {
                 ctx.rep.fail(Failure { kind: "ORACLE", op: "FROMSTR".into(), class: "panic:keys".into(), input: format!("KSecretKey::<{}>::from_str(len {})", m, len), imp: out, model: String::new(), spec: String::new(), clause: "C08: secret-key construction panicked".into() });
+            }
+        }
+    }
+    // key derivation for every date chrono can represent (years with more than four digits, negative years,
+    // NaiveDate::MIN / MAX) and any region/service text: a value, never a panic
+    {
+        use chrono::NaiveDate;
+        let mut dates: Vec<NaiveDate> = vec![NaiveDate::MIN, NaiveDate::MAX];
+        for (y, m, d) in [(10000, 1, 1), (9999, 12, 31), (-1, 12, 31), (0, 1, 1), (99999, 6, 15), (-9999, 1, 1), (262142, 12, 31), (-262143, 1, 1), (1, 1, 1), (999, 2, 28)] {
+            if let Some(x) = NaiveDate::from_ymd_opt(y, m, d) {
+                dates.push(x);
+            }
+        }
+        for date in dates {
+            for (region, service) in [("us-east-1", "s3"), ("", ""), ("\u{e9}\u{141}/", "\u{0}")] {
+                let out = imp::keys44("wJalrXUtnFEMI/K7MDENG+bPxRfiCYEXAMPLEKEY", date, region, service);
+                ctx.rep.count("evaluations");
+                ctx.rep.count("evaluations.KEYS_EXTREME_DATE");
+                if out.starts_with("PANIC") {
+                    ctx.rep.fail(Failure { kind: "ORACLE", op: "KEYS".into(), class: "panic:keys-date".into(), input: format!("key derivation for date {:?} region {:?} service {:?}", date, region, service), imp: out, model: String::new(), spec: String::new(), clause: "C08: key derivation panicked".into() });
+                }
             }
         }
     }
